@@ -208,19 +208,47 @@ func c10Run(t *testing.T, c *choice.Stream, r *Result, opt RunOpt, forced *c10Fo
 		var firedStep int
 		var firedAt time.Duration
 		inCall := ""
-		fire := func() {
-			if fired {
-				return
-			}
+		// The server may fall silent in the middle of a packet: the beginning of
+		// its next packet arrives, the rest never does, and the cancellation comes
+		// when the receiver is already inside that packet.
+		partial := silence && forced == nil && !streaming && c.Bool("silence.partial", 1, 3)
+		partialFrac := c.Draw("silence.partial.at", 1000)
+		var cancelLateAt time.Duration = -1
+		doCancel := func() {
 			fired = true
 			firedStep = e.Sim.Step
 			firedAt = e.Sim.Now()
-			if silence {
-				srv.Script = srv.Script[:srv.ScriptPos()]
-				srv.Auto = nil
-			}
 			e.Sim.SetFair()
 			cancel()
+		}
+		fire := func() {
+			if fired || cancelLateAt >= 0 {
+				return
+			}
+			if silence {
+				var next []byte
+				for i := srv.ScriptPos(); i < len(srv.Script); i++ {
+					if srv.Script[i].OnPacket != nil {
+						break
+					}
+					if len(srv.Script[i].Send) > 0 {
+						next = srv.Script[i].Send
+						break
+					}
+				}
+				srv.Script = srv.Script[:srv.ScriptPos()]
+				srv.Auto = nil
+				if partial && len(next) > 1 && !useDeadline {
+					k := 1 + partialFrac%(len(next)-1)
+					conn.Enqueue(next[:k])
+					r.Fire("silent_mid_packet")
+					cancelLateAt = e.Sim.Now() + time.Millisecond // once the receiver sits inside the packet
+					e.Sim.AddEnv(&sched.EnvFunc{N: "cancel-late", E: func() bool { return !fired && e.Sim.Now() >= cancelLateAt }, R: doCancel})
+					e.Sim.WakeAfter(time.Millisecond)
+					return
+				}
+			}
+			doCancel()
 		}
 		if useDeadline {
 			// the context is created inside the bubble by main, so that its timer is on the fake clock
@@ -251,7 +279,7 @@ func c10Run(t *testing.T, c *choice.Stream, r *Result, opt RunOpt, forced *c10Fo
 				}
 			default:
 				e.Sim.AddEnv(&sched.EnvFunc{N: "cancel", E: func() bool {
-					if fired {
+					if fired || cancelLateAt >= 0 {
 						return false
 					}
 					switch gateName {
@@ -274,7 +302,7 @@ func c10Run(t *testing.T, c *choice.Stream, r *Result, opt RunOpt, forced *c10Fo
 		if stuckAfter >= 0 && !useDeadline {
 			// whatever the gate: once the writer is blocked for good nothing else
 			// would ever move, so the cancellation comes then at the latest
-			e.Sim.AddEnv(&sched.EnvFunc{N: "cancel-stuck", E: func() bool { return !fired && stuckNow() }, R: fire})
+			e.Sim.AddEnv(&sched.EnvFunc{N: "cancel-stuck", E: func() bool { return !fired && cancelLateAt < 0 && stuckNow() }, R: fire})
 		}
 		r.Cell = fmt.Sprintf("%s/%s/rt%v", sc.kind, gateName, cf.EffReadTimeout())
 		r.Sample = map[string]any{"kind": sc.kind, "gate": gateName, "k_bytes": kBytes, "script_pos": pScript, "step": sStep, "silence": silence, "deadline": dl.String(),
